@@ -165,6 +165,14 @@ func (c *FnCtx) applyModifies(st, pre *State, ec *evalCtx, m *Clause) {
 		c.havocAll(st, "modifies heap")
 		return
 	}
+	if call, ok := m.Expr.(*ast.CallExpr); ok {
+		if id, ok := call.Fun.(*ast.Ident); ok && id.Name == "ghost" {
+			ref, key, sort := ec.ghostCell(call)
+			nv := c.declare("ghost", sort)
+			c.heapWrite(st, key, sort, ref, "0", nv)
+			return
+		}
+	}
 	if se, ok := m.Expr.(*ast.StarExpr); ok {
 		if call, ok := se.X.(*ast.CallExpr); ok {
 			if id, ok := call.Fun.(*ast.Ident); ok && id.Name == "allfields" {
@@ -472,6 +480,12 @@ func (eng *Engine) verifyFunction(fn *ssa.Function, con *Contract, bounded int) 
 			continue
 		}
 		c.assume(st, ec.boolOf(r.Expr))
+	}
+	if pkg != nil {
+		for _, gf := range globalFacts[pkg.Path()] {
+			c.assume(st, ec.boolOf(gf.Expr))
+			c.note("assumed about package-level state of %s: %s", pkg.Path(), gf.Text)
+		}
 	}
 	if con.Panics != nil {
 		c.panicCond = c.defAlways("panics_when", "Bool", ec.boolOf(con.Panics.Expr))
